@@ -15,7 +15,8 @@ def main():
     prop_id, tier, seed, shard, nshards, out, timeout = sys.argv[1:8]
     os.environ['VERIF_SEED'] = seed
     faulthandler.dump_traceback_later(max(5, int(timeout) - 2), exit=False)
-    from . import core
+    from . import breadcrumb, core
+    breadcrumb.open_for(out + '.crumb')
     mod = importlib.import_module('vmon.props.' + prop_id.lower())
     ctx = core.Ctx(prop_id, tier, int(seed), int(shard), int(nshards))
     cap = getattr(mod, 'TIME_CAP', {}).get(tier)
